@@ -34,6 +34,7 @@ func propose(p *chainkit.Node, lastCommit *types.Commit, t uint64) (*types.Block
 func runChain(c *core.Ctx) {
 	r := c.Rng
 	seedShim(c, "C05")
+	clearAppCache() // a case stands for one process: nothing compiled for another chain may survive into it
 	o := drawOpts(r)
 	g, err := chainkit.BuildGenesis(chainkit.GenesisOpts{Seed: r.Uint64(), NumAccounts: o.Accounts, Powers: []int64{10, 10, 10, 10}, Tokens: tokenIDs(), TokenBalance: big.NewInt(1000000000), MaxTxs: o.MaxTxs})
 	if err != nil {
@@ -102,6 +103,8 @@ func runChain(c *core.Ctx) {
 		t0 := time.Now()
 		w.fill(height, want)
 		t1 := time.Now()
+		cc.cacheSnaps = nil
+		cc.noteExec()
 		block, parts, why, err := propose(P, lastCommit, uint64(chainkit.FixedTime.Unix())+height)
 		c.Logf("height %d: fill %v propose %v", height, t1.Sub(t0), time.Since(t1)) // diagnostics only
 		if err != nil {
@@ -168,6 +171,7 @@ func runChain(c *core.Ctx) {
 				c.Count("warm_pool_refused", int64(len(wb.Data.Txs)-adm))
 			}
 			procs := procsOf(r)
+			cc.noteExec()
 			ok, why, pan := checkBlock(rp.n, fb, procs)
 			rec := &record{Kind: rp.kind, Procs: procs, OK: ok, Why: why}
 			if pan != nil {
@@ -254,6 +258,7 @@ func runChain(c *core.Ctx) {
 			clearAppCache()
 			fb, _, _ := decode(parts)
 			procs := procsOf(r)
+			cc.noteExec()
 			ok, why, pan := checkBlock(fn, fb, procs)
 			rec := &record{Kind: "reopened", Procs: procs, OK: ok, Why: why}
 			if pan != nil {
@@ -324,7 +329,7 @@ func (cc *chainCase) variant(height uint64, block *types.Block, P, cold, warm *c
 	var mut string
 	pick := r.Intn(5)
 	var up *genTx
-	if len(w.signers) > 0 && r.Chance(0.5) {
+	if w.hostile && len(w.signers) > 0 && r.Chance(0.6) {
 		if up = w.genUpgrade(true); up != nil {
 			pick = 5
 		}
@@ -373,6 +378,10 @@ func (cc *chainCase) variant(height uint64, block *types.Block, P, cold, warm *c
 	vb.Header.TotalTxs = block.Header.TotalTxs - block.Header.NumTxs + uint64(len(txs))
 	vb.Header.DataHash = vb.Data.Hash()
 	// proposer path on the variant
+	realSnaps, realParts := cc.cacheSnaps, cc.diagParts
+	cc.cacheSnaps = nil
+	defer func() { cc.cacheSnaps, cc.diagParts = realSnaps, realParts }()
+	cc.noteExec()
 	var pan interface{}
 	logReset()
 	func() {
@@ -396,6 +405,7 @@ func (cc *chainCase) variant(height uint64, block *types.Block, P, cold, warm *c
 			return false
 		}
 		procs := procsOf(r)
+		cc.noteExec()
 		ok, why, pn := checkBlock(rp.n, fb, procs)
 		if pn != nil {
 			c.Violation("validator/checkblock-panic", fmt.Sprintf("height %d: CheckBlock panicked on a %s variant block on replica %q: %v", height, mut, rp.kind, pn),
@@ -424,6 +434,14 @@ func (cc *chainCase) variant(height uint64, block *types.Block, P, cold, warm *c
 	}
 	// 2. the validator path agrees with the proposer path (PreRunBlock skips the signature pre-check, nothing
 	// else; every variant here carries only properly signed transactions)
+	if preOK && !ref.OK && (strings.HasPrefix(ref.Why, "CheckBlock:_verify_signature_failed") || strings.HasPrefix(ref.Why, "processBlock:_verifyTxsOnProcess_fail")) {
+		// The one thing PreRunBlock legitimately skips is the signature / basic pre-check, and for some
+		// transaction kinds its outcome depends on the state (signer sets, code at the destination). A block
+		// that was not assembled by Reap may carry such a transaction; every validator refusing it alike is
+		// what the property demands. (For blocks a correct proposer assembled this is a violation, see runChain.)
+		c.Count("variants_refused_by_precheck", 1)
+		return true
+	}
 	if ref.OK != preOK {
 		if ref.Has && preOK {
 			for _, comp := range []string{"gas-used", "state-hash", "receipt-hash"} {
@@ -493,6 +511,10 @@ func (cc *chainCase) rejected(height uint64, parts *types.PartSet, hdr map[strin
 			if err != nil {
 				continue
 			}
+			if q.kind == "reopened" {
+				clearAppCache()
+			}
+			cc.noteExec()
 			ok, why, pan := checkBlock(q.n, fb, rec.Procs)
 			if pan != nil {
 				continue
